@@ -376,6 +376,36 @@ def corrupt_part(ctx, rn, messages):
     ctx.notes.append('bursts straddling the CRC field / region boundary that were accepted: %d (information; such a pattern is not a burst in codeword order)' % straddle_acc)
 
 
+def header_object_part(ctx, rn, messages):
+    """validate_crc() is a function of (header fields, buffer): one header object validating several buffers in turn,
+    a header parsed from one message validating another buffer, with and without an offset."""
+    r = ctx.rng
+    lines, meta = [], []
+    for label, msg, _ in messages:
+        n = len(msg)
+        spots = [(12, 0), (9, 3), (4, 1), (7, 7), (20, 6)] + ([(24, 0), (n - 1, 7), (24 + r.randrange(n - 24), r.randrange(8))] if n > 24 else [])
+        for by, bi in spots:
+            bad = bytearray(msg); bad[by] ^= 1 << bi; bad = bytes(bad)
+            for off in (0, 3):
+                pre = r.randbytes(off)
+                for hdr, seq in ((msg, [bad, bad, msg]), (bad, [bad, bad, msg]), (msg, [msg, bad, msg, msg])):
+                    lines.append('VV %s %d %s' % (hdr.hex(), off, ' '.join((pre + b).hex() for b in seq)))
+                    meta.append((label, (by, bi), off))
+    if not lines:
+        return
+    py = run_jobs(PYH, [([], lines)], vf.IMPL_ENV)[0]
+    mdl = run_jobs(rn.model, [([], lines)])[0]
+    for l, (label, spot, off), a, b in zip(lines, meta, py, mdl):
+        ctx.case(('vv', l[:60], len(l))); ctx.count('validate_crc:one-header-several-buffers')
+        case = {'op': 'validate-sequence', 'message': label, 'flipped': spot, 'offset': off, 'full_line': l, 'impl': a, 'spec_and_model': b}
+        if a.split(' ')[0] != b.split(' ')[0]:
+            ctx.violation({'op': 'validate-sequence', 'class': 'outcome-depends-on-earlier-calls-or-not-on-the-buffer'},
+                          'one MessageHeader validating buffers in turn (%s, bit %r flipped, offset %d): implementation says %s, '
+                          'crc32(buffer[offset+8:offset+size]) == header.crc says %s' % (label, spot, off, a.split(' ')[0], b.split(' ')[0]), case)
+        elif a != b:
+            ctx.broken_correspondence('validate_crc changes the header object (crc / payload_size_bytes after the calls differ from the model)', case)
+
+
 def pick_messages(ctx, produced):
     r = ctx.rng
     out = []
@@ -425,6 +455,7 @@ def run(ctx):
     produced = enc_part(ctx, rn)
     msgs = pick_messages(ctx, produced)
     ctx.log('corrupting %d messages: %s' % (len(msgs), ', '.join('%s(%dB)' % (l.split(' ')[0] if not l.startswith('raw') else 'raw', len(b)) for l, b, _ in msgs)))
+    header_object_part(ctx, rn, msgs[:8])
     corrupt_part(ctx, rn, msgs)
     ctx.coverage['rule'] = ('CRC: all 65 792 buffers of 1 and 2 bytes, random buffers (to 64 KiB) and initial values, all split points of buffers <= 64 bytes; '
                             'encoder: scenarios of 1-8 calls from counters around 0, 2^31 and 2^32, payload objects of every registered class whose default instance packs; '
@@ -436,7 +467,7 @@ def run(ctx):
     ctx.trusted_base += ['Coq 8.16.1 kernel + vm_compute (order facts of the CRC register, primality of 65537 by exhaustion)',
                          'extraction (ExtrOcamlBasic only) and ocaml/c06_driver.ml',
                          'zlib.crc32 modelled as the bit-serial CRC-32 definition; struct.pack modelled as range check + little-endian fields (held by correspondence)',
-                         'translators/gen_fe.py, translators/gen_c06.py (AST / regex recognition of encoder.py, defs.py, crc.cc, crc.h; header layout from clang++-14)',
+                         'translators/gen_fe.py, translators/gen_c06.py (constants derived from the behaviour of the imported package and of a clang++-14 probe linked with crc.cc)',
                          'harness/py/c06_impl.py, harness/cpp/c06_crc_h.cc (ASan/UBSan build linked against the working tree crc.cc, fusion_engine_framer.cc, logging.cc)',
                          'decoder and framer are run, not modelled here (their models belong to C04/C05/C07); Base/FEFormat.judge_fe is the acceptance test they are compared with']
     ctx.assumptions += ['little-endian target with 64-bit size_t (checked by the layout probe)', 'payload objects are used only through get_type(), get_version(), pack()',
@@ -456,6 +487,11 @@ def replay(ctx, rec):
         print('IMPL ', vf.run_lines(PYH, [case['line']], env=vf.IMPL_ENV)[1][-1][:2000])
         print('MODEL', vf.run_lines(rn.model, [case['line']])[1][-1][:2000])
         print('SPEC  every call returns a message whose sequence number is (initial + k) mod 2^32')
+    elif case.get('op') == 'validate-sequence':
+        l = case['full_line']
+        print('IMPL          ', vf.run_lines(PYH, [l], env=vf.IMPL_ENV)[1][-1])
+        print('MODEL and SPEC', vf.run_lines(rn.model, [l])[1][-1])
+        print('(outcomes of validate_crc on each buffer in turn, then header.crc and payload_size_bytes afterwards)')
     elif case.get('full_line'):
         l = case['full_line']
         print('IMPL python', vf.run_lines(PYH, [l], env=vf.IMPL_ENV)[1][-1])
